@@ -156,6 +156,42 @@ func c01Struct(rc txRecipe) (fs []rep.Finding) {
 		} else if d := cmpTx(t2, &exp, form.prev); d != "" {
 			fs = append(fs, rep.F("NewTxFromStream|field-lost|"+form.name, d))
 		}
+		// a parsed transaction is a value of its own: the caller may reuse the buffer it was parsed
+		// from, and may grow one of its scripts, without any other part of it changing
+		for _, via := range []string{"NewTxFromBytes", "NewTxFromStream", "ReadFrom", "Clone"} {
+			src := append(make([]byte, 0, len(form.b)+64), form.b...)
+			var p *bt.Tx
+			switch via {
+			case "NewTxFromBytes":
+				p, _ = bt.NewTxFromBytes(src)
+			case "NewTxFromStream":
+				p, _, _ = bt.NewTxFromStream(src)
+			case "ReadFrom":
+				p = &bt.Tx{}
+				if _, err := p.ReadFrom(bytes.NewBuffer(src)); err != nil {
+					p = nil
+				}
+			case "Clone":
+				if q, _ := bt.NewTxFromBytes(src); q != nil {
+					p = q.Clone()
+				}
+			}
+			if p == nil {
+				continue
+			}
+			for i := range src {
+				src[i] = 0x5a
+			}
+			_ = append(src, bytes.Repeat([]byte{0x5a}, 64)...)
+			if d := cmpTx(p, &exp, form.prev); d != "" {
+				fs = append(fs, rep.F("parse|shares-source-buffer|"+via+"|"+form.name, "the parsed transaction changed when the buffer it was parsed from was overwritten: "+d))
+				continue
+			}
+			spillScripts(p)
+			if d := cmpTx(p, &exp, form.prev); d != "" {
+				fs = append(fs, rep.F("parse|scripts-share-a-buffer|"+via+"|"+form.name, "appending to one script of a parsed transaction (in its spare capacity) changed another part of it: "+d))
+			}
+		}
 		var t3 bt.Tx
 		n, err := t3.ReadFrom(bytes.NewReader(form.b))
 		if err != nil || int(n) != len(form.b) {
@@ -609,6 +645,23 @@ func init() {
 				}
 			}
 		})
+	}
+}
+
+// spillScripts appends to every script of tx without keeping the result: when a script has spare
+// capacity the bytes land behind it, which is harmless unless something else lives there.
+func spillScripts(tx *bt.Tx) {
+	sp := func(s *bscript.Script) {
+		if s != nil {
+			_ = append([]byte(*s), 0xee, 0xee, 0xee, 0xee)
+		}
+	}
+	for _, in := range tx.Inputs {
+		sp(in.UnlockingScript)
+		sp(in.PreviousTxScript)
+	}
+	for _, out := range tx.Outputs {
+		sp(out.LockingScript)
 	}
 }
 
